@@ -8,6 +8,8 @@ from . import solvers
 from .zutil import get_vars
 
 class Unsupported(Exception): pass
+class SidecarMismatch(Exception):
+    """the code under contract no longer has the internal shape (register, loop) a sidecar hint refers to: the case is UNDECIDED, not a checker fault"""
 
 def K(val, width):
     """width-checked constant (never silently truncates)"""
